@@ -41,8 +41,16 @@ theorem tok_jiff_ts : tokStrftime JIFF_TS_FMT =
 theorem tok_time_odt : tokTimeFd TIME_ODT_FMT none =
     [.lit 68, .lit 58, .year, .month, .day, .hour, .minute, .second, .offHourSigned, .lit 39, .offMinute, .lit 39] := by
   decide +kernel
-theorem tok_time_parse : tokTimeFd TIME_PARSE_FMT none =
-    [.year, .month, .day, .hour, .minute, .second, .offHourSigned, .offMinute] := by decide +kernel
+theorem tok_time_time : tokTimeFd TIME_TIME_FMT none =
+    [.lit 68, .lit 58, .year, .month, .day, .hour, .minute, .second, .lit 90] := by decide +kernel
+/-- the five parse alternatives of the time backend in source order (the same forms, in the same order, as jiff's) -/
+theorem time_parse_alternatives :
+    TIME_PARSE.map (fun p => (p.1, tokTimeFd p.2 none)) =
+      [(0, [.year, .month, .day, .hour, .minute, .second, .offHourSigned, .offMinute]),
+       (1, [.year, .month, .day, .hour, .minute, .second, .lit 90]),
+       (0, [.year, .month, .day, .hour, .minute, .offHourSigned, .offMinute]),
+       (1, [.year, .month, .day, .hour, .minute, .lit 90]),
+       (2, [.year, .month, .day])] := by decide +kernel
 theorem parse_alternatives :
     CHRONO_PARSE.map (fun p => (p.1, tokStrftime p.2)) =
       [(0, [.year, .month, .day, .hour, .minute, .second, .offPermissive]),
@@ -258,6 +266,28 @@ theorem jiff_alts : JIFF_PARSE = JIFF_PARSE.headD (0, []) :: JIFF_PARSE.tail ∧
     tokStrftime (JIFF_PARSE.headD (0, [])).2 = [.year, .month, .day, .hour, .minute, .second, .offPermissive] := by
   refine ⟨by decide +kernel, by decide +kernel, by decide +kernel⟩
 
+theorem spec_strptime (z : Bool) (fmt s : Bytes) : specLib.strptime z fmt s =
+    (parseToks z (tokStrftime fmt) zeroFields s).bind fun f => if fieldsInRange f then some f else none := rfl
+theorem spec_timeParse (fmt s : Bytes) : specLib.timeParse fmt s =
+    (parseToks false (tokTimeFd fmt none) zeroFields s).bind fun f => if fieldsInRange f then some f else none := rfl
+
+theorem firstAlt_some (lib : DateLib) (z : Bool) (s : Bytes) (k : Nat) (fmt : Bytes) (rest : List (Nat × Bytes)) (f : Fields)
+    (h : lib.strptime z fmt s = some f) : firstAlt lib z s ((k, fmt) :: rest) = some (applyKind k f) := by
+  simp [firstAlt, h]
+theorem firstAlt_none (lib : DateLib) (z : Bool) (s : Bytes) (k : Nat) (fmt : Bytes) (rest : List (Nat × Bytes))
+    (h : lib.strptime z fmt s = none) : firstAlt lib z s ((k, fmt) :: rest) = firstAlt lib z s rest := by
+  simp [firstAlt, h]
+theorem firstAltTime_some (lib : DateLib) (s : Bytes) (k : Nat) (fmt : Bytes) (rest : List (Nat × Bytes)) (f : Fields)
+    (h : lib.timeParse fmt s = some f) : firstAltTime lib s ((k, fmt) :: rest) = some (applyKind k f) := by
+  simp [firstAltTime, h]
+theorem firstAltTime_none (lib : DateLib) (s : Bytes) (k : Nat) (fmt : Bytes) (rest : List (Nat × Bytes))
+    (h : lib.timeParse fmt s = none) : firstAltTime lib s ((k, fmt) :: rest) = firstAltTime lib s rest := by
+  simp [firstAltTime, h]
+
+theorem time_alts : ∃ t1 rest, TIME_PARSE = (0, t1) :: rest ∧
+    tokTimeFd t1 none = [.year, .month, .day, .hour, .minute, .second, .offHourSigned, .offMinute] :=
+  ⟨_, _, rfl, by decide +kernel⟩
+
 theorem firstAlt_head (lib : DateLib) (z : Bool) (s : Bytes) (L : List (Nat × Bytes)) (f : Fields)
     (hL : L = L.headD (0, []) :: L.tail) (hk : (L.headD (0, [])).1 = 0)
     (h : lib.strptime z (L.headD (0, [])).2 s = some f) : firstAlt lib z s L = some f := by
@@ -289,11 +319,12 @@ theorem strip_parse_rt (lib : DateLib) (hlib : LibParses lib) (f : Fields) (hf :
     show (parseToks false (tokStrftime _) zeroFields f.stripped).bind _ = _
     rw [jiff_alts.2.2, parse_full false f hf]
     simp [hr]
-  · unfold timeParse
-    rw [(hlib true TIME_PARSE_FMT _).2]
-    show (parseToks false (tokTimeFd TIME_PARSE_FMT none) zeroFields f.stripped).bind _ = _
-    rw [tok_time_parse, parse_full_time f hf]
-    simp [hr]
+  · obtain ⟨t1, rest, hL, h1⟩ := time_alts
+    have e1 : lib.timeParse t1 f.stripped = some f := by
+      rw [(hlib true t1 _).2, spec_timeParse, h1, parse_full_time f hf]; simp [hr]
+    unfold timeParse
+    rw [hL, firstAltTime_some _ _ _ _ _ _ e1]
+    simp [applyKind]
 
 /-- the full trip on the model: format with any backend, strip, parse with any backend -/
 theorem format_strip_parse (lib : DateLib) (hF : LibFormats lib) (hP : LibParses lib) (f : Fields) (hf : FieldsOk f) :
@@ -313,7 +344,8 @@ theorem format_strip_parse (lib : DateLib) (hF : LibFormats lib) (hP : LibParses
 
 /-! ### the other forms of the specification -/
 
-/-- `D:199812231952-08'00'` (minute precision) and `D:20040229` (date only) parse with chrono and jiff -/
+/-- `D:199812231952-08'00'` (minute precision) and `D:20040229` (date only) parse with all three backends
+(F-C18-a repaired: the time backend now has the later alternatives too) -/
 theorem spec_forms_parse :
     let minuteForm : Bytes := [68, 58, 49, 57, 57, 56, 49, 50, 50, 51, 49, 57, 53, 50, 45, 48, 56, 39, 48, 48, 39]
     let dateForm : Bytes := [68, 58, 50, 48, 48, 52, 48, 50, 50, 57]
@@ -322,23 +354,148 @@ theorem spec_forms_parse :
     (asDatetime (.str minuteForm .lit)).bind (chronoParse specLib) = some m ∧
     (asDatetime (.str minuteForm .lit)).bind (jiffParse specLib) = some m ∧
     (asDatetime (.str dateForm .lit)).bind (chronoParse specLib) = some d ∧
-    (asDatetime (.str dateForm .lit)).bind (jiffParse specLib) = some d := by
+    (asDatetime (.str dateForm .lit)).bind (jiffParse specLib) = some d ∧
+    (asDatetime (.str minuteForm .lit)).bind (timeParse specLib) = some m ∧
+    (asDatetime (.str dateForm .lit)).bind (timeParse specLib) = some d := by
   decide +kernel
 
-/-- the `Z` form parses with chrono (permissive `%#z`) and with jiff (second alternative) -/
+/-- the `Z` form parses with chrono (permissive `%#z`), jiff and time (second alternative each) -/
 theorem z_form_parses :
     let z : Bytes := [68, 58, 50, 48, 50, 52, 48, 50, 50, 57, 49, 50, 51, 52, 53, 54, 90]      -- D:20240229123456Z
     let v : Fields := { year := 2024, month := 2, day := 29, hour := 12, minute := 34, second := 56, offNeg := false, offH := 0, offM := 0 }
     (asDatetime (.str z .lit)).bind (chronoParse specLib) = some v ∧
-    (asDatetime (.str z .lit)).bind (jiffParse specLib) = some v := by
+    (asDatetime (.str z .lit)).bind (jiffParse specLib) = some v ∧
+    (asDatetime (.str z .lit)).bind (timeParse specLib) = some v := by
   decide +kernel
 
-/-- F-C18-a: the `time` backend has one format with a mandatory numeric offset — the `Z` form,
-the minute-precision form and the date-only form are all rejected -/
-theorem time_backend_rejects_other_forms :
-    (asDatetime (.str [68, 58, 50, 48, 50, 52, 48, 50, 50, 57, 49, 50, 51, 52, 53, 54, 90] .lit)).bind (timeParse specLib) = none ∧
-    (asDatetime (.str [68, 58, 49, 57, 57, 56, 49, 50, 50, 51, 49, 57, 53, 50, 45, 48, 56, 39, 48, 48, 39] .lit)).bind (timeParse specLib) = none ∧
-    (asDatetime (.str [68, 58, 50, 48, 48, 52, 48, 50, 50, 57] .lit)).bind (timeParse specLib) = none := by
-  decide +kernel
+/-! ### the `Z` form, generically: UTC producers into every backend -/
+
+def Fields.utc (f : Fields) : Fields := { f with offNeg := false, offH := 0, offM := 0 }
+
+/-- the `Z` date string without `D` and `:` -/
+def Fields.strippedZ (f : Fields) : Bytes :=
+  pad4 f.year ++ pad2 f.month ++ pad2 f.day ++ pad2 f.hour ++ pad2 f.minute ++ pad2 f.second ++ [90]
+
+theorem strip_Z (l : Bytes) : stripDate (90 :: l) = 90 :: stripDate l := strip_keep _ _ (by decide)
+
+theorem strip_pdfZ (f : Fields) : stripDate f.pdfZ = f.strippedZ := by
+  simp only [Fields.pdfZ, Fields.strippedZ, pdfDateZ, pad2_eq, pad4_eq, D2, D4, List.cons_append,
+    List.nil_append, List.append_assoc, strip_digit, strip_D, strip_colon, strip_Z, strip_nil]
+
+theorem strippedZ_ascii (f : Fields) : ∀ x ∈ f.strippedZ.map UInt8.toNat, x < 128 := by
+  intro x hx
+  simp only [Fields.strippedZ, pad4, pad2, List.cons_append, List.nil_append, List.append_assoc, List.map_cons,
+    List.map_nil, List.mem_cons, List.not_mem_nil, or_false, digit_toNat] at hx
+  have : (90 : UInt8).toNat = 90 := by decide
+  simp only [this] at hx
+  omega
+
+theorem as_datetime_pdfZ (f : Fields) (fmt : StrFmt) : asDatetime (.str f.pdfZ fmt) = some f.strippedZ := by
+  simp only [asDatetime, strip_pdfZ]
+  have : stdFromUtf8 f.strippedZ = some (f.strippedZ.map UInt8.toNat) := dec8_ascii _ (strippedZ_ascii f)
+  simp [this]
+
+/-- chrono's first alternative: the permissive `%#z` reads `Z` as offset zero -/
+theorem parse_z_permissive (f : Fields) (hf : FieldsOk f) :
+    parseToks true [.year, .month, .day, .hour, .minute, .second, .offPermissive] zeroFields f.strippedZ = some f.utc := by
+  obtain ⟨h1, h2, h3, h4, h5, h6, h7, h8, h9, h10⟩ := hf
+  cases f with
+  | mk y mo d h mi s neg oh om =>
+    simp only at h1 h2 h3 h4 h5 h6 h7 h8 h9 h10
+    simp [Fields.strippedZ, Fields.utc, pad4, pad2, parseToks, parseTok, num2_digits, zeroFields,
+      year_digits y h1, two_digits mo (by omega), two_digits d (by omega), two_digits h (by omega),
+      two_digits mi (by omega), two_digits s (by omega)]
+
+/-- without the permissive reading (jiff) and for time's numeric offset the first alternative rejects `Z` … -/
+theorem parse_z_first_fails (f : Fields) :
+    parseToks false [.year, .month, .day, .hour, .minute, .second, .offPermissive] zeroFields f.strippedZ = none ∧
+    parseToks false [.year, .month, .day, .hour, .minute, .second, .offHourSigned, .offMinute] zeroFields f.strippedZ = none := by
+  constructor <;>
+    simp [Fields.strippedZ, pad4, pad2, parseToks, parseTok, num2_digits, zeroFields]
+
+/-- … and the second alternative (literal `Z`) accepts it -/
+theorem parse_z_literal (z : Bool) (f : Fields) (hf : FieldsOk f) :
+    parseToks z [.year, .month, .day, .hour, .minute, .second, .lit 90] zeroFields f.strippedZ = some f.utc := by
+  obtain ⟨h1, h2, h3, h4, h5, h6, h7, h8, h9, h10⟩ := hf
+  cases f with
+  | mk y mo d h mi s neg oh om =>
+    simp only at h1 h2 h3 h4 h5 h6 h7 h8 h9 h10
+    simp [Fields.strippedZ, Fields.utc, pad4, pad2, parseToks, parseTok, num2_digits, zeroFields,
+      year_digits y h1, two_digits mo (by omega), two_digits d (by omega), two_digits h (by omega),
+      two_digits mi (by omega), two_digits s (by omega)]
+
+theorem jiff_alts2 : ∃ j1 j2 rest, JIFF_PARSE = (0, j1) :: (1, j2) :: rest ∧
+    tokStrftime j1 = [.year, .month, .day, .hour, .minute, .second, .offPermissive] ∧
+    tokStrftime j2 = [.year, .month, .day, .hour, .minute, .second, .lit 90] :=
+  ⟨_, _, _, rfl, by decide +kernel, by decide +kernel⟩
+
+theorem time_alts2 : ∃ t1 t2 rest, TIME_PARSE = (0, t1) :: (1, t2) :: rest ∧
+    tokTimeFd t1 none = [.year, .month, .day, .hour, .minute, .second, .offHourSigned, .offMinute] ∧
+    tokTimeFd t2 none = [.year, .month, .day, .hour, .minute, .second, .lit 90] :=
+  ⟨_, _, _, rfl, by decide +kernel, by decide +kernel⟩
+
+theorem utc_in_range (f : Fields) (hf : FieldsOk f) : fieldsInRange f.utc = true := by
+  obtain ⟨h1, h2, h3, h4, h5, h6, h7, h8, h9, h10⟩ := hf
+  simp [fieldsInRange, Fields.utc, *]
+
+theorem applyKind_utc (k : Nat) (f : Fields) : applyKind k f.utc = f.utc := by
+  unfold applyKind; split <;> rfl
+
+/-- **Z-form round trip**: for every in-range field tuple the `Z` date string (what `DateTime<Utc>`,
+`Timestamp` and `time::Time` produce), stripped and parsed with chrono, jiff or time, returns the same
+civil fields at offset zero (`LibParses`). Before the repair of F-C18-a the time conjunct was false. -/
+theorem z_strip_parse_rt (lib : DateLib) (hlib : LibParses lib) (f : Fields) (hf : FieldsOk f) (fmt : StrFmt) :
+    (asDatetime (.str f.pdfZ fmt)).bind (chronoParse lib) = some f.utc ∧
+    (asDatetime (.str f.pdfZ fmt)).bind (jiffParse lib) = some f.utc ∧
+    (asDatetime (.str f.pdfZ fmt)).bind (timeParse lib) = some f.utc := by
+  rw [as_datetime_pdfZ]
+  simp only [Option.bind_some]
+  have hr := utc_in_range f hf
+  refine ⟨?_, ?_, ?_⟩
+  · have := firstAlt_head lib true f.strippedZ CHRONO_PARSE f.utc chrono_alts.1 chrono_alts.2.1 (by
+      rw [(hlib _ _ _).1]
+      show (parseToks true (tokStrftime _) zeroFields f.strippedZ).bind _ = _
+      rw [chrono_alts.2.2, parse_z_permissive f hf]
+      simp [hr])
+    exact this
+  · obtain ⟨j1, j2, rest, hL, h1, h2⟩ := jiff_alts2
+    have e1 : lib.strptime false j1 f.strippedZ = none := by
+      rw [(hlib false j1 _).1, spec_strptime, h1, (parse_z_first_fails f).1]; rfl
+    have e2 : lib.strptime false j2 f.strippedZ = some f.utc := by
+      rw [(hlib false j2 _).1, spec_strptime, h2, parse_z_literal false f hf]; simp [hr]
+    unfold jiffParse
+    rw [hL, firstAlt_none _ _ _ _ _ _ e1, firstAlt_some _ _ _ _ _ _ _ e2, applyKind_utc]
+  · obtain ⟨t1, t2, rest, hL, h1, h2⟩ := time_alts2
+    have e1 : lib.timeParse t1 f.strippedZ = none := by
+      rw [(hlib false t1 _).2, spec_timeParse, h1, (parse_z_first_fails f).2]; rfl
+    have e2 : lib.timeParse t2 f.strippedZ = some f.utc := by
+      rw [(hlib false t2 _).2, spec_timeParse, h2, parse_z_literal false f hf]; simp [hr]
+    unfold timeParse
+    rw [hL, firstAltTime_none _ _ _ _ _ e1, firstAltTime_some _ _ _ _ _ _ e2, applyKind_utc]
+
+/-- F-C18-b repaired: `From<time::Time>` yields the `Z` date form of the current UTC date at the given time of day -/
+theorem time_time_shape (lib : DateLib) (hlib : LibFormats lib) (f : Fields) (hf : FieldsOk f) :
+    timeTimeString lib f = some f.pdfZ := by
+  unfold timeTimeString; rw [(hlib _ f hf).2]
+  show renderToks f (tokTimeFd TIME_TIME_FMT none) = _
+  rw [tok_time_time]
+  simp [renderToks, renderTok, Fields.pdfZ, pdfDateZ, pad2_eq, pad4_eq]
+
+/-- the UTC producers (chrono `DateTime<Utc>`, jiff `Timestamp`, `time::Time`) into every backend -/
+theorem z_format_strip_parse (lib : DateLib) (hF : LibFormats lib) (hP : LibParses lib) (f : Fields) (hf : FieldsOk f) :
+    ∀ s ∈ [chronoUtcString lib f, jiffTimestampString lib f, timeTimeString lib f],
+      ∃ bs, s = some bs ∧
+        (asDatetime (.str bs .lit)).bind (chronoParse lib) = some f.utc ∧
+        (asDatetime (.str bs .lit)).bind (jiffParse lib) = some f.utc ∧
+        (asDatetime (.str bs .lit)).bind (timeParse lib) = some f.utc := by
+  have hs := date_string_shape lib hF f hf
+  have ht := time_time_shape lib hF f hf
+  have hp := z_strip_parse_rt lib hP f hf .lit
+  intro s hs'
+  simp only [List.mem_cons, List.not_mem_nil, or_false] at hs'
+  rcases hs' with h | h | h
+  · exact ⟨f.pdfZ, by rw [h, hs.2.2.2.1], hp⟩
+  · exact ⟨f.pdfZ, by rw [h, hs.2.2.2.2], hp⟩
+  · exact ⟨f.pdfZ, by rw [h, ht], hp⟩
 
 end Lopdf
